@@ -7,13 +7,18 @@ from lib.tlaval import to_tla
 
 LEVEL = 'model_checking'
 NONE = -1000
-KEYS = ('id', 'defPulseMs', 'maxPulseMs', 'defPP', 'maxPP', 'defHP', 'maxHP', 'allowEnable', 'maxHoldDur', 'defTE', 'pwte')
+KEYS = ('id', 'defPulseMs', 'maxPulseMs', 'defPP', 'maxPP', 'defHP', 'maxHP', 'allowEnable', 'maxHoldDur', 'defTE', 'pwte',
+        'dynP', 'dynT')
 EPS = 1e-6
+REL = 10        # release_wait_ms of the power supply shared by all coils of the generated machine
 
 
-def C(i, defPulseMs=10, maxPulseMs=0, defPP=0, maxPP=100, defHP=0, maxHP=0, allowEnable=False, maxHoldDur=0, defTE=0, pwte=False):
+def C(i, defPulseMs=10, maxPulseMs=0, defPP=0, maxPP=100, defHP=0, maxHP=0, allowEnable=False, maxHoldDur=0, defTE=0, pwte=False,
+      dynP=False, dynT=False, src='var'):
+    # dynP / dynT: default_pulse_ms / default_timed_enable_ms are placeholders (src: a machine variable or an operator
+    # setting) whose value changes while the machine runs; defPulseMs / defTE are the values at boot
     return dict(id=i, defPulseMs=defPulseMs, maxPulseMs=maxPulseMs, defPP=defPP, maxPP=maxPP, defHP=defHP, maxHP=maxHP,
-                allowEnable=allowEnable, maxHoldDur=maxHoldDur, defTE=defTE, pwte=pwte)
+                allowEnable=allowEnable, maxHoldDur=maxHoldDur, defTE=defTE, pwte=pwte, dynP=dynP, dynT=dynT, src=src)
 
 
 TABLE = [
@@ -25,11 +30,16 @@ TABLE = [
     C(6, defPulseMs=20, maxPulseMs=400, maxPP=100, allowEnable=True, maxHoldDur=2000, defTE=100),
     C(7, pwte=True, maxHP=50, defTE=100, maxHoldDur=1000),
     C(8, defHP=50),
+    C(9, maxPulseMs=30, allowEnable=True, maxHoldDur=1000, defTE=100, dynP=True, dynT=True),
+    C(10, maxPulseMs=400, defPP=50, maxPP=50, dynP=True, src='setting'),
 ]
 MS = [NONE, -5, 0, 10, 30, 300]
 POW = [NONE, -50, 0, 25, 50, 100, 150]
 TEV = [NONE, -100, 100, 2000]
 STEPS = [100, 300, 1000]
+DEFV = [-5, 0, 10, 20, 45, 300, 2000]      # values of the placeholders behind the defaults
+MW = [NONE, 45, 495]                       # max_wait_ms (never a multiple of 10: no float ties with the busy time)
+OTHER = [30, 100]                          # pulses of the other coil on the power supply
 
 
 def cfg_rec(c):
@@ -40,10 +50,27 @@ def write_machine(scratch):
     d = os.path.join(scratch, 'machines', 'coils')
     os.makedirs(d + '/config', exist_ok=True)
     with open(d + '/config/config.yaml', 'w') as f:
-        f.write('#config_version=6\ncoils:\n')
+        f.write('#config_version=6\npsus:\n  default:\n    release_wait_ms: %d\n' % REL)
+        f.write('switches:\n  s_rule:\n    number: 1\n')
+        f.write('machine_vars:\n')
+        for c in TABLE:
+            if c['src'] == 'var':
+                for k, dyn, key in (('ms', 'dynP', 'defPulseMs'), ('te', 'dynT', 'defTE')):
+                    if c[dyn]:
+                        f.write('  c%d_%s:\n    initial_value: %d\n    value_type: int\n    persist: false\n' % (c['id'], k, c[key]))
+        f.write('settings:\n')
+        for c in TABLE:
+            if c['src'] == 'setting' and c['dynP']:
+                f.write('  c%d_ms:\n    label: strength of c%d\n    key_type: int\n    sort: %d\n    default: %d\n    values:\n'
+                        % (c['id'], c['id'], c['id'], c['defPulseMs']))
+                for v in sorted(set(DEFV + [c['defPulseMs']])):
+                    f.write('      %d: "v%d"\n' % (v, v))
+        # the other coil on the same power supply
+        f.write('coils:\n  other:\n    number: 0\n    default_pulse_ms: 10\n')
         for c in TABLE:
             n = 'c%d' % c['id']
-            f.write('  %s:\n    number: %d\n    default_pulse_ms: %d\n' % (n, c['id'], c['defPulseMs']))
+            dp = str(c['defPulseMs']) if not c['dynP'] else ('machine.%s_ms' % n if c['src'] == 'var' else 'settings.%s_ms' % n)
+            f.write('  %s:\n    number: %d\n    default_pulse_ms: %s\n' % (n, c['id'], dp))
             if c['maxPulseMs']:
                 f.write('    max_pulse_ms: %dms\n' % c['maxPulseMs'])
             if c['defPP']:
@@ -57,7 +84,9 @@ def write_machine(scratch):
                 f.write('    allow_enable: true\n')
             if c['maxHoldDur']:
                 f.write('    max_hold_duration: %sms\n' % c['maxHoldDur'])
-            if c['defTE']:
+            if c['dynT']:
+                f.write('    default_timed_enable_ms: machine.%s_te\n' % n)
+            elif c['defTE']:
                 f.write('    default_timed_enable_ms: %d\n' % c['defTE'])
             if c['pwte']:
                 f.write('    pulse_with_timed_enable: true\n')
@@ -66,25 +95,44 @@ def write_machine(scratch):
     return d
 
 
-def mc_module(full=True):
-    # full: every value class (schedule generation); 'medium': the exhaustive check of the thorough tier (the full sets
-    # do not finish within 40 minutes at MaxOps 2); reduced: quick tier
-    ms, pw, te = {True: (MS, POW, TEV), 'medium': ([NONE, -5, 0, 10, 300], [NONE, -50, 0, 50, 100, 150], TEV),
-                  False: ([NONE, -5, 10, 300], [NONE, -50, 50, 150], [NONE, -100, 100])}[full]
-    return """------------------------------ MODULE CoilMC ------------------------------
+VALUES = {
+    # every value class (schedule generation)
+    'full': dict(ms=MS, pw=POW, te=TEV),
+    # the exhaustive check of the thorough tier (the full sets do not finish within 40 minutes at MaxOps 2)
+    'medium': dict(ms=[NONE, -5, 0, 10, 300], pw=[NONE, -50, 0, 50, 100, 150], te=TEV),
+    # quick tier
+    'reduced': dict(ms=[NONE, -5, 10, 300], pw=[NONE, -50, 50, 150], te=[NONE, -100, 100]),
+    # mostly valid values: held / software-timed coils and their timers interleave with further requests
+    'valid': dict(ms=[NONE, 10, 30, 300], pw=[NONE, 25, 50, 100], te=[NONE, 100]),
+    # interleavings with the power supply and with changing defaults
+    'tiny': dict(ms=[NONE, 300], pw=[NONE], te=[]),
+    'small': dict(ms=[NONE, 300], pw=[NONE], te=[NONE, 100]),
+}
+
+
+def write_mc(wd, values, maxops, props=True, configs=None, mw=(NONE,), other=(), defv=(), steps=STEPS, maxtime=6000, name='MC.cfg',
+             maxpend=2):
+    """Write CoilMC.tla (the constants that cannot be written in a .cfg) and the TLC config `name`."""
+    v = VALUES[values]
+    cs = [c for c in TABLE if configs is None or c['id'] in configs]
+    st = lambda xs: ', '.join(map(str, xs))
+    with open(wd + '/CoilMC.tla', 'w') as f:
+        f.write("""------------------------------ MODULE CoilMC ------------------------------
 EXTENDS Coil
 MCNONE == %d
 MCConfigs == {%s}
 MCMs == {%s}
 MCPow == {%s}
 MCTe == {%s}
+MCMw == {%s}
+MCOther == {%s}
+MCDef == {%s}
+MCSteps == {%s}
 =============================================================================
-""" % (NONE, ',\n  '.join(to_tla(cfg_rec(c)) for c in TABLE), ', '.join(map(str, ms)), ', '.join(map(str, pw)),
-       ', '.join(map(str, te)))
-
-
-def mc_cfg(maxops, props=True):
-    return """SPECIFICATION Spec
+""" % (NONE, ',\n  '.join(to_tla(cfg_rec(c)) for c in cs), st(v['ms']), st(v['pw']), st(v['te']), st(mw), st(other), st(defv),
+       st(steps)))
+    with open(wd + '/' + name, 'w') as f:
+        f.write("""SPECIFICATION Spec
 CONSTANTS
   Configs <- MCConfigs
   NONE <- MCNONE
@@ -92,11 +140,19 @@ CONSTANTS
   MsVals <- MCMs
   PowVals <- MCPow
   TeVals <- MCTe
-  Steps = {100, 300, 1000}
-  MaxTime = 6000
+  MwVals <- MCMw
+  OtherMs <- MCOther
+  DefVals <- MCDef
+  Steps <- MCSteps
+  Rel = %d
+  MaxPend = %d
+  MaxTime = %d
   MaxOps = %d
 %sCHECK_DEADLOCK FALSE
-""" % (maxops, 'PROPERTY Envelope\nINVARIANT RefuseNotCommand\nINVARIANT SoftwarePulseEnds\nINVARIANT HoldWatchdog\n' if props else '')
+""" % (REL, maxpend, maxtime, maxops, ('PROPERTY Envelope\n' + ''.join('INVARIANT %s\n' % i for i in MONITORS[1:])) if props else ''))
+
+
+MONITORS = ['Envelope', 'RefuseNotCommand', 'SoftwarePulseEnds', 'HoldWatchdog', 'PendSane', 'NothingOverdue']
 
 
 _H = {}
@@ -135,6 +191,28 @@ def pct(x):
     return int(round(x * 100))
 
 
+def record_rules(platform, log):
+    """Record every hardware rule installed on a platform: the settings the rule carries for its coil."""
+    from mpf.core.platform import DriverSettings
+    for attr in dir(platform):
+        if not (attr.startswith('set_') and attr.endswith('_rule')):
+            continue
+        inner = getattr(platform, attr)
+        if getattr(inner, '_c08_rec', False):
+            continue
+
+        def rec(*args, _inner=inner, **kwargs):
+            for a in list(args) + list(kwargs.values()):
+                if isinstance(a, DriverSettings):
+                    name = getattr(a.hw_driver, '_name', None)
+                    if name is not None:
+                        log.append((name, ['rule', int(a.pulse_settings.duration), pct(a.pulse_settings.power),
+                                           pct(a.hold_settings.power) if a.hold_settings else 0, 0]))
+            return _inner(*args, **kwargs)
+        rec._c08_rec = True
+        setattr(platform, attr, rec)
+
+
 def _machine(mdir):
     if 'h' not in _H:
         h = harness.boot(None, machine_dir=mdir)
@@ -143,6 +221,7 @@ def _machine(mdir):
         for c in TABLE:
             coil = h.machine.coils['c%d' % c['id']]
             coil.hw_driver = RecDriver(coil.hw_driver, _H['log'], coil.name)
+            record_rules(coil.platform, _H['log'])
     return _H['h']
 
 
@@ -161,23 +240,39 @@ def exec_schedule(job):
                 '_tb': traceback.format_exc()[-1500:]}
 
 
+def set_default(h, c, which, v):
+    """Change the value behind a placeholder default (machine variable / operator setting) and let the subscription fire."""
+    m = h.machine
+    name = 'c%d_%s' % (c['id'], 'ms' if which == 'pulse_ms' else 'te')
+    if c['src'] == 'setting':
+        m.settings.set_setting_value(name, v)
+    else:
+        m.variables.set_machine_var(name, v)
+    for _ in range(4):
+        h.advance_time_and_run(0)
+
+
 def _exec(mdir, cid, sched, via_events):
+    from mpf.core.platform_controller import SwitchRuleSettings, DriverRuleSettings, PulseRuleSettings, HoldRuleSettings
     h = _machine(mdir)
     m = h.machine
     c = [x for x in TABLE if x['id'] == cid][0]
     coil = m.coils['c%d' % cid]
+    other = m.coils['other']
     log = _H['log']
     coil.disable()
+    if c['dynP']:
+        set_default(h, c, 'pulse_ms', c['defPulseMs'])
+    if c['dynT']:
+        set_default(h, c, 'timed_enable_ms', c['defTE'])
     h.advance_time_and_run(10)
     del log[:]
     ev = []
-    t0 = m.clock.get_time()
-    tgt = 0
 
     def call(fn, evname, kw):
         """Run one request either as a direct method call or through the coil's control event."""
         kw = {k: v for k, v in kw.items() if v is not None}
-        if not via_events:
+        if not via_events or evname is None:
             try:
                 fn(**kw)
                 return False
@@ -192,28 +287,56 @@ def _exec(mdir, cid, sched, via_events):
             return True
         return h._exception is not None and h._exception is not before
 
+    def rule(ms, pp, hp, hold):
+        """Install a hardware rule for the coil the way autofires / flippers do, and remove it again."""
+        pc = m.platform_controller
+        sw = SwitchRuleSettings(switch=m.switches['s_rule'], debounce=False, invert=False)
+        dr = DriverRuleSettings(driver=coil, recycle=True)
+        ps = PulseRuleSettings(duration=ms, power=pp)
+        if hold:
+            r = pc.set_pulse_on_hit_and_enable_and_release_rule(sw, dr, ps, HoldRuleSettings(power=hp))
+        else:
+            r = pc.set_pulse_on_hit_rule(sw, dr, ps)
+        pc.clear_hw_rule(r)
+
     for s in list(sched) + [{'op': 'adv', 'd': 1000}] * 3:
         op = s['op']
         if op == 'init':
             continue
         rec = {'op': op}
+        mw = s.get('mw', NONE)
+        refused = False
         if op == 'adv':
-            # the model moves to the next timer at most: replay its decision by observing what fires
             rec['d'] = s['d']
             h.advance_time_and_run(s['d'] * (1 + EPS) / 1000.0)
-            refused = False
         elif op == 'pulse':
-            rec.update(ms=s['ms'], pp=s['pp'])
-            refused = call(coil.pulse, 'pulse', dict(pulse_ms=arg(s['ms']), pulse_power=arg(s['pp'], 100.0)))
+            rec.update(ms=s['ms'], pp=s['pp'], mw=mw)
+            refused = call(coil.pulse, 'pulse', dict(pulse_ms=arg(s['ms']), pulse_power=arg(s['pp'], 100.0), max_wait_ms=arg(mw)))
         elif op == 'enable':
-            rec.update(ms=s['ms'], pp=s['pp'], hp=s['hp'])
-            refused = call(coil.enable, 'enable', dict(pulse_ms=arg(s['ms']), pulse_power=arg(s['pp'], 100.0), hold_power=arg(s['hp'], 100.0)))
+            if via_events:
+                mw = NONE       # the enable control event carries no max_wait_ms
+            rec.update(ms=s['ms'], pp=s['pp'], hp=s['hp'], mw=mw)
+            refused = call(coil.enable, 'enable', dict(pulse_ms=arg(s['ms']), pulse_power=arg(s['pp'], 100.0),
+                                                       hold_power=arg(s['hp'], 100.0), max_wait_ms=arg(mw)))
         elif op == 'timed_enable':
-            rec.update(te=s['te'], hp=s['hp'], ms=s['ms'], pp=s['pp'])
+            rec.update(te=s['te'], hp=s['hp'], ms=s['ms'], pp=s['pp'], mw=mw)
             refused = call(coil.timed_enable, 'timed_enable', dict(timed_enable_ms=arg(s['te']), hold_power=arg(s['hp'], 100.0),
-                                                                  pulse_ms=arg(s['ms']), pulse_power=arg(s['pp'], 100.0)))
+                                                                  pulse_ms=arg(s['ms']), pulse_power=arg(s['pp'], 100.0),
+                                                                  max_wait_ms=arg(mw)))
         elif op == 'disable':
             refused = call(coil.disable, 'disable', {})
+        elif op == 'rule':
+            rec.update(ms=s['ms'], pp=s['pp'], hp=s['hp'], hold=bool(s['hold']))
+            try:
+                rule(arg(s['ms']), arg(s['pp'], 100.0), arg(s['hp'], 100.0), bool(s['hold']))
+            except Exception:  # refused  pylint: disable=broad-except
+                refused = True
+        elif op == 'other':
+            rec['ms'] = s['ms']
+            other.pulse(s['ms'])
+        elif op == 'setdef':
+            rec.update(w=s['w'], v=s['v'])
+            set_default(h, c, s['w'], s['v'])
         else:
             raise ValueError(op)
         if op != 'adv':
@@ -222,7 +345,7 @@ def _exec(mdir, cid, sched, via_events):
         rec['err'] = bool(refused)
         del log[:]
         ev.append(rec)
-        if via_events and refused:
+        if via_events and refused and op != 'rule':
             # an exception in an event handler stops the test machine: start over with a fresh one
             _H.pop('h', None)
             break
@@ -242,7 +365,8 @@ def coil_env(coil):
     cf = coil.config
     return dict(id=0, defPulseMs=0, maxPulseMs=int(cf['max_pulse_ms'] or 0), defPP=pct(cf['default_pulse_power'] or 0),
                 maxPP=pct(cf['max_pulse_power'] or 0), defHP=pct(cf['default_hold_power'] or 0), maxHP=pct(cf['max_hold_power'] or 0),
-                allowEnable=bool(cf['allow_enable']), maxHoldDur=int((cf['max_hold_duration'] or 0) * 1000), defTE=0, pwte=False)
+                allowEnable=bool(cf['allow_enable']), maxHoldDur=int((cf['max_hold_duration'] or 0) * 1000), defTE=0, pwte=False,
+                dynP=False, dynT=False)
 
 
 def exec_fuzz(job):
@@ -271,6 +395,8 @@ def exec_fuzz(job):
                 if coil.hw_driver is not None:
                     coil.hw_driver = RecDriver(coil.hw_driver, log, coil.name)
                     envs[coil.name] = coil_env(coil)
+                    if coil.platform is not None:
+                        record_rules(coil.platform, log)
             switches = list(m.switches.keys())
             events = set()
             for coil in m.coils.values():
@@ -305,45 +431,77 @@ def exec_fuzz(job):
 
 
 def handmade():
-    E = lambda ms=NONE, pp=NONE, hp=NONE: {'op': 'enable', 'ms': ms, 'pp': pp, 'hp': hp}
-    P = lambda ms=NONE, pp=NONE: {'op': 'pulse', 'ms': ms, 'pp': pp}
+    """(configurations, schedule) pairs written by hand."""
+    E = lambda ms=NONE, pp=NONE, hp=NONE, mw=NONE: {'op': 'enable', 'ms': ms, 'pp': pp, 'hp': hp, 'mw': mw}
+    P = lambda ms=NONE, pp=NONE, mw=NONE: {'op': 'pulse', 'ms': ms, 'pp': pp, 'mw': mw}
+    T = lambda te=NONE, mw=NONE: {'op': 'timed_enable', 'te': te, 'hp': NONE, 'ms': NONE, 'pp': NONE, 'mw': mw}
+    R = lambda hold=False, ms=NONE, pp=NONE, hp=NONE: {'op': 'rule', 'ms': ms, 'pp': pp, 'hp': hp, 'hold': hold}
     A = lambda d: {'op': 'adv', 'd': d}
+    O = lambda ms: {'op': 'other', 'ms': ms}
+    S = lambda w, v: {'op': 'setdef', 'w': w, 'v': v}
     D = {'op': 'disable'}
-    return [
-        # repeated enable of a held coil must not push the hold watchdog back
-        [E(), A(300), A(300), E(), A(300), E(), A(300), A(1000), A(1000)],
-        # software-timed pulse with other requests in between
-        [P(300), A(100), E(), A(100), A(300), A(1000)],
-        [P(300), A(100), D, A(100), P(300), A(100), A(300), A(300)],
-        [E(), A(100), P(300), A(300), A(1000), A(1000)],
-    ]
+    hold = (3, 4, 5, 6, 9)
+    res = []
+    for sch in [
+            # repeated enable of a held coil must not push the hold watchdog back
+            [E(), A(300), A(300), E(), A(300), E(), A(300), A(1000), A(1000)],
+            # software-timed pulse with other requests in between
+            [P(300), A(100), E(), A(100), A(300), A(1000)],
+            [P(300), A(100), D, A(100), P(300), A(100), A(300), A(300)],
+            [E(), A(100), P(300), A(300), A(1000), A(1000)],
+            # the software pulse timer and the hold watchdog due at the same instant
+            [E(), A(1000), A(300), A(300), A(100), P(300), A(300)],
+            [E(), A(300), A(300), A(100), P(300), A(300)],
+            # requests postponed by the busy power supply, with a disable / further requests during the wait
+            [O(100), E(mw=495), A(100), A(100), A(1000), A(1000)],
+            [O(100), E(mw=495), D, A(100), A(100), A(1000), A(1000), A(1000)],
+            [O(100), A(30), E(mw=495), A(30), D, A(100), E(), A(1000), A(1000)],
+            [O(100), E(mw=495), E(mw=495), D, A(300), D, E(mw=495), A(1000), A(1000)],
+            [O(100), P(300, mw=495), D, A(100), A(100), A(300), A(1000)],
+            [O(100), P(300, mw=495), A(30), P(300, mw=495), E(mw=495), A(300), A(300), D, A(300), A(1000)],
+            [O(100), E(mw=45), A(100), D, O(30), E(mw=45), D, A(100), A(1000)],
+            [O(100), T(mw=495), P(mw=495), A(30), D, A(100), A(1000)],
+    ]:
+        res.append((hold, sch))
+    for sch in [
+            # the placeholder behind the default changes at runtime: every entry point follows the default of the moment
+            [P(), S('pulse_ms', 45), P(), E(), T(), R(), R(True), S('pulse_ms', 20), P(), R(), S('pulse_ms', 300), P(), A(300)],
+            [S('pulse_ms', 2000), P(), E(), R(), S('pulse_ms', -5), P(), R(), S('pulse_ms', 0), P(), S('pulse_ms', 10), P()],
+            [O(100), S('pulse_ms', 20), P(mw=495), S('pulse_ms', 45), A(100), A(100), P(mw=495), A(1000)],
+    ]:
+        res.append(((9, 10), sch))
+    res.append(((9,), [T(), S('timed_enable_ms', 2000), T(), S('timed_enable_ms', 300), T(), S('timed_enable_ms', -5), T()]))
+    return res
 
 
 def run(ctx):
     mdir = write_machine(ctx.scratch)
     wd = tlc.prepare(ctx.scratch, 'Coil', 'coil')
-    with open(wd + '/CoilMC.tla', 'w') as f:
-        f.write(mc_module(full=False if ctx.quick else 'medium'))
-    with open(wd + '/MC.cfg', 'w') as f:
-        f.write(mc_cfg(2))
-    r = tlc.expect_ok(tlc.check(wd, 'CoilMC', 'MC.cfg', timeout=3000), 'Coil design check')
-    ctx.add_tlc('CoilMC', r, {'configs': len(TABLE), 'pulse_ms classes': len(MS), 'power classes': len(POW), 'MaxOps': 2, 'value sets': 'reduced' if ctx.quick else 'medium'})
-    ctx.coverage['monitors'] += ['Envelope', 'RefuseNotCommand', 'SoftwarePulseEnds', 'HoldWatchdog']
-    with open(wd + '/CoilMC.tla', 'w') as f:
-        f.write(mc_module(full=True))
-    with open(wd + '/Gen.cfg', 'w') as f:
-        f.write(mc_cfg(10, props=False))
-    behs, _ = tlc.simulate(wd, 'CoilMC', 'Gen.cfg', num=400 if ctx.quick else 6000, depth=16 if ctx.quick else 22, seed=ctx.seed)
-    # a second stream over mostly-valid parameter values so that held / software-timed coils and their timers
-    # interleave with further requests (random picks over all classes are refused most of the time)
-    with open(wd + '/CoilMC.tla', 'w') as f:
-        f.write(mc_module(full=True).replace('MCMs == {%s}' % ', '.join(map(str, MS)), 'MCMs == {%d, 10, 30, 300}' % NONE)
-                .replace('MCPow == {%s}' % ', '.join(map(str, POW)), 'MCPow == {%d, 25, 50, 100}' % NONE)
-                .replace('MCTe == {%s}' % ', '.join(map(str, TEV)), 'MCTe == {%d, 100}' % NONE))
-    behs2, _ = tlc.simulate(wd, 'CoilMC', 'Gen.cfg', num=250 if ctx.quick else 4000, depth=18 if ctx.quick else 26, seed=ctx.seed + 11)
+    # (1) every value class on every configuration, two requests, coarse time
+    write_mc(wd, 'reduced' if ctx.quick else 'medium', 2, steps=[1000] if ctx.quick else [300, 1000], maxtime=3001)
+    r = tlc.expect_ok(tlc.check(wd, 'CoilMC', 'MC.cfg', timeout=3000), 'Coil design check (values)')
+    ctx.add_tlc('CoilMC values', r, {'configs': len(TABLE), 'pulse_ms classes': len(MS), 'power classes': len(POW), 'MaxOps': 2,
+                                     'value sets': 'reduced' if ctx.quick else 'medium'})
+    # (2) interleavings of requests, timers, the shared power supply (postponed requests) and changing defaults
+    inter = dict(configs=(4, 6, 7, 9, 10), mw=(NONE, 495), other=(100,), defv=(10, 45), steps=[100, 1000], maxtime=3000)
+    write_mc(wd, 'tiny', 3 if ctx.quick else 4, **inter)
+    r = tlc.expect_ok(tlc.check(wd, 'CoilMC', 'MC.cfg', timeout=3000), 'Coil design check (interleavings)')
+    ctx.add_tlc('CoilMC interleavings', r, {'configs': len(inter['configs']), 'MaxOps': 3 if ctx.quick else 4, 'MaxPend': 2,
+                                            'steps': inter['steps']})
+    ctx.coverage['monitors'] += MONITORS
+    q = ctx.quick
+    # schedules: (a) all value classes, (b) mostly valid values with the power supply in play, (c) few values, busy
+    # power supply and changing defaults on the configurations that hold / time in software / have placeholder defaults
+    write_mc(wd, 'full', 10, props=False, name='Gen.cfg')
+    behs, _ = tlc.simulate(wd, 'CoilMC', 'Gen.cfg', num=300 if q else 6000, depth=16 if q else 22, seed=ctx.seed)
+    write_mc(wd, 'valid', 10, props=False, name='Gen.cfg', mw=(NONE, 495), other=(100,), defv=(20, 45), maxpend=3)
+    behs2, _ = tlc.simulate(wd, 'CoilMC', 'Gen.cfg', num=200 if q else 4000, depth=18 if q else 26, seed=ctx.seed + 11)
+    write_mc(wd, 'small', 12, props=False, name='Gen.cfg', configs=(4, 6, 7, 9, 10), mw=MW, other=OTHER, defv=DEFV,
+             steps=[30, 100, 300, 1000], maxpend=3)
+    behs3, _ = tlc.simulate(wd, 'CoilMC', 'Gen.cfg', num=250 if q else 4000, depth=20 if q else 28, seed=ctx.seed + 23)
     rnd = random.Random(ctx.seed)
-    jobs = [(mdir, b[0]['cfg']['id'], [s['act'] for s in b], rnd.random() < 0.3) for b in behs + behs2]
-    jobs += [(mdir, cid, sch, False) for cid in (3, 4, 5, 6) for sch in handmade()]
+    jobs = [(mdir, b[0]['cfg']['id'], [s['act'] for s in b], rnd.random() < 0.3) for b in behs + behs2 + behs3]
+    jobs += [(mdir, cid, sch, False) for cids, sch in handmade() for cid in cids]
     traces = harness.pmap(exec_schedule, jobs, chunk=8)
     ctx.log('api schedules executed: %d' % len(traces))
     repo = os.environ.get('VERIF_REPO', '/repo')
@@ -356,6 +514,11 @@ def run(ctx):
     ctx.coverage['device_machines'] = sorted({t['_machine'] for t in ftraces})
     ctx.coverage['device_machines_skipped'] = [t['_skip'] for r_ in fres for t in r_ if '_skip' in t][:10]
     ctx.coverage['device_commands_judged'] = sum(len(t['ev']) for t in ftraces)
+    ctx.coverage['device_rules_judged'] = sum(1 for t in ftraces for e in t['ev'] if e['c'][0] == 'rule')
+    ctx.coverage['api_postponed_requests'] = sum(1 for t in traces for e in t['ev']
+                                                 if e.get('mw', NONE) != NONE and not e.get('err') and not e.get('cmds')
+                                                 and e['op'] in ('pulse', 'enable'))
+    ctx.coverage['api_default_changes'] = sum(1 for t in traces for e in t['ev'] if e['op'] == 'setdef')
     alltr = traces + ftraces
     with open(wd + '/Trace.cfg', 'w') as f:
         f.write("""SPECIFICATION TSpec
@@ -366,13 +529,18 @@ CONSTANTS
   MsVals = {}
   PowVals = {}
   TeVals = {}
+  MwVals = {}
+  OtherMs = {}
+  DefVals = {}
   Steps = {}
+  Rel = %d
+  MaxPend = 1000000
   MaxTime = 100000000
   MaxOps = 1000000
 INVARIANT Reporter
 INVARIANT RefuseNotCommand
 CHECK_DEADLOCK FALSE
-""")
+""" % REL)
     v = tlc.validate_traces(wd, 'CoilTrace', 'Trace.cfg', alltr)
     ctx.add_trace_verdict('CoilTrace', v, len(alltr))
     ctx.sample({'kind': 'coil-api-trace', 'cfg': traces[0]['cfg'], 'trace': traces[0]['ev'][:8]})
@@ -392,8 +560,9 @@ CHECK_DEADLOCK FALSE
             what = 'coil call not explained by Coil spec at line %s: %s (cfg %s)' % (info.get('line'), fe, tr['cfg'])
             rp = {'kind': 'api', 'job': [jobs[i][1], jobs[i][2], jobs[i][3]], 'trace': tr, 'info': info}
         ctx.violation(sig, what, rp)
-    ctx.assumptions += ['commands are observed at the platform driver interface (hw_driver) of the virtual platform',
-                        'PSU wait times (max_wait_ms) are not exercised', 'digital_outputs are not coils and are not judged']
+    ctx.assumptions += ['commands are observed at the platform driver interface (hw_driver) and the rule interface of the virtual platform',
+                        'the power supply is modelled as mpf/devices/power_supply_unit.py computes its busy time; max_wait_ms values '
+                        'are chosen so that no wait ends exactly at a limit', 'digital_outputs are not coils and are not judged']
 
 
 def classify(fe, cfg):
